@@ -285,7 +285,8 @@ def cli_events(binary, inputs, out_path):
             if "\x00" in s:
                 continue
             try:
-                p = subprocess.run([binary, "--fen", s, "-T", "-d", "1"], stdout=subprocess.PIPE, stderr=subprocess.PIPE, timeout=20)
+                # (--fen=<value>: a mutated string may start with '-', which the argument parser would otherwise read as a flag)
+                p = subprocess.run([binary, "--fen=" + s, "-T", "-d", "1"], stdout=subprocess.PIPE, stderr=subprocess.PIPE, timeout=20)
                 code, out = p.returncode, p.stdout.decode("utf-8", "replace")
             except subprocess.TimeoutExpired:
                 code, out = -9, ""
